@@ -15,7 +15,8 @@ type IriExpander struct {
 
 func (i *IriExpander) Expand(iri string) (string, error) {
 	isReservedKeyword := strings.HasPrefix(iri, "@")
-	compactForm := regexp.MustCompile("^[a-zA-Z-0-9\\-]+\\.[\\.(\\\\/)a-zA-Z-0-9\\-]+$")
+	// same characters as the property path grammar accepts in an IRI (including "_")
+	compactForm := regexp.MustCompile("^[a-zA-Z-0-9\\-_]+\\.[\\.(\\\\/)a-zA-Z-0-9\\-_]+$")
 	isCompact := compactForm.MatchString(iri)
 
 	if isCompact {
